@@ -36,3 +36,16 @@ Definition detail (st : state) : list Z :=
   ++ [-1] ++ map (fun r => match r_waiting r with Some x => Z.of_nat x | None => -1 end) (rds st).
 Definition run_detail (cfg : config) (st : state) (sched : list tid) : list (list Z) :=
   map detail (trace cfg st sched).
+
+(* ---------- divide_outputs (Model/MailboxDivider.v) ---------- *)
+From SV Require Import Model.MailboxDivider.
+
+(* [divider status; per mailbox: (per subscriber: status, length of log, log...), len(_mailbox), closed] *)
+Definition dobs (ds : dstate) : list Z :=
+  (match d_pc ds with DDone => 2 | _ => if div_enabled ds then 0 else 1 end)
+  :: flat_map (fun c =>
+       flat_map (fun r => reader_code c r :: Z.of_nat (length (r_log r)) :: r_log r) (rds c)
+       ++ [Z.of_nat (length (box c)); b2z (closed c)]) (d_mbs ds).
+
+Definition drun_obs (dc : dconfig) (ds : dstate) (sched : list dtid) : list (list Z) :=
+  map dobs (dtrace dc ds sched).
